@@ -477,7 +477,7 @@ def dummy_sensor_getter(name, value=None, dtype=np.float64, timestamp=0.0):
             value = np.dtype(dtype).type(np.nan)
         elif np.issubdtype(dtype, np.integer):
             value = np.dtype(dtype).type(-1)
-        elif np.issubdtype(dtype, np.string_):
+        elif np.issubdtype(dtype, np.bytes_) or np.issubdtype(dtype, np.str_):
             # Order is important here, because np.str is a subtype of np.bool,
             # but not the other way around...
             value = ''
